@@ -50,6 +50,10 @@ CON = {
     "Self::unpack_bounded": lambda it, recv, a: ("fallible", "unpack_bounded fails => Err", VOpaque("circuit", list(a))),
     "scalar_map": lambda it, recv, a: VOpaque("scalar_map", list(a)),
     ".validate_indices": lambda it, recv, a: ("fallible", "validate_indices fails => Err", UNIT),
+    # the canonical field decoder of the dependency (CtOption: None for values >= r) and a KNOWN non-canonical constructor
+    "BlsScalar::from_bytes": lambda it, recv, a: VOpaque("BlsScalar::from_bytes", list(a)),
+    "BlsScalar::from_raw": lambda it, recv, a: VOpaque("BlsScalar::from_raw", list(a)),
+    ".into": lambda it, recv, a: recv,
 }
 
 
@@ -65,7 +69,11 @@ def c_from_bytes(it, recv, a):
     X.append(("try", "inflate fails or exceeds the limit => Err(InvalidCompressedCircuit)"))
     X.append(("try", "unpack_bounded fails => Err"))
     X.append(("try", "validate_indices fails => Err"))
-    X.append(("unmodelled_exit", "return", ""))      # the scalar-table loop: Err(BlsScalarMalformed) for a non-canonical scalar
+    # the scalar table: EVERY serialized scalar goes through the canonical decoder; a non-canonical one is Err(BlsScalarMalformed)
+    from vlib.ring import VErr
+    circ = "circuit(inflated(inflate(compressed, packed_size_limit(max_constraints))), max_constraints)"
+    it.ctx.event("for_each_in_order", circ + ".scalars", (),
+                 (("return_if_none", VOpaque("BlsScalar::from_bytes", [Sym(circ + ".scalars[*]")]), VErr("Error::BlsScalarMalformed")),))
     sub_log, sub_exits = [], []
     row, i = Sym("circuit(inflated(inflate(compressed, packed_size_limit(max_constraints))), max_constraints).constraints[*]"), Sym("circuit(inflated(inflate(compressed, packed_size_limit(max_constraints))), max_constraints).constraints[#]")
     poly = VOpaque("get", [Sym("circuit(inflated(inflate(compressed, packed_size_limit(max_constraints))), max_constraints).polynomials"), Sym(canon(row) + ".polynomial")])
@@ -101,3 +109,58 @@ u = Unit("compress.from_bytes.row_replay", CP, "CompressedCircuit::from_bytes", 
          trace_only=True, tracked=("composer",), path_dependent=True)
 u.extra_contracts = CON
 UNITS.append(u)
+
+
+# ------------------------------------------------------------------ PackedCircuitReader::unpack_array_len, per TAG (instances)
+# second opinion for the Verus unit (which states the same for all inputs but needs callee wrappers for the byte conversions)
+def mk_reader(tag, n):
+    return lambda: VStruct("PackedCircuitReader", {"remaining": VArr([tag] + [Sym(f"b{i}") for i in range(1, n)], "slice")})
+
+
+def c_take(it, recv, a):
+    """PackedCircuitReader::take (Verus unit compress.PackedCircuitReader::take): the first len bytes, reader advanced; Err if short"""
+    from vlib.ring import VView
+    rem, n = recv.fields["remaining"], a[0]
+    if n > len(rem.items):
+        return ("fallible", "always", VOpaque("never"))
+    head = VView(rem, 0, n)
+    recv.fields["remaining"] = VView(rem, n, len(rem.items))
+    return VOk(head)
+
+
+def be(bs):
+    v = P(0)
+    for b in bs:
+        v = v * 256 + P(b)
+    return v
+
+
+def c_unpack_array_len(tag, n):
+    def c(it, recv, a):
+        """MessagePack array header: fixarray 0x90|len, array16 0xdc + 2 bytes BIG-endian, array32 0xdd + 4 bytes BIG-endian; any other
+        tag and any truncated header is Err(InvalidCompressedCircuit); the header bytes are consumed"""
+        rem = recv.fields["remaining"]
+        b = list(rem.items)
+        if 0x90 <= tag <= 0x9f:
+            return VOk(tag & 0x0f)
+        if tag == 0xdc and n >= 3:
+            return VOk(VOpaque("u16::from_be_bytes", [VArr(b[1:3], "array")]))
+        if tag == 0xdd and n >= 5:
+            return ("fallible", "usize::try_from(u32) fails => Err(InvalidCompressedCircuit)", VOpaque("u32::from_be_bytes", [VArr(b[1:5], "array")]))
+        from vlib.ring import VErr
+        return VErr("Error::InvalidCompressedCircuit")
+    return c
+
+
+UAL = {"self.take": c_take,
+       "u16::from_be_bytes": lambda it, recv, a: VOpaque("u16::from_be_bytes", [VArr(list(a[0].items), "array")]),
+       "u32::from_be_bytes": lambda it, recv, a: VOpaque("u32::from_be_bytes", [VArr(list(a[0].items), "array")]),
+       "u16::from_le_bytes": lambda it, recv, a: VOpaque("u16::from_le_bytes", [VArr(list(a[0].items), "array")]),
+       "u32::from_le_bytes": lambda it, recv, a: VOpaque("u32::from_le_bytes", [VArr(list(a[0].items), "array")]),
+       "usize::try_from": lambda it, recv, a: VOpaque("usize::try_from", list(a)),
+       ".map_err": lambda it, recv, a: ("fallible", "usize::try_from(u32) fails => Err(InvalidCompressedCircuit)", recv.args[0]) if isinstance(recv, VOpaque) and recv.name == "usize::try_from" else NotImplemented}
+for (tag_, n_) in [(0x90, 1), (0x9f, 3), (0xdc, 3), (0xdc, 5), (0xdd, 5), (0xdd, 7), (0x00, 4), (0xde, 4), (0xa0, 2)]:
+    u = Unit(f"compress.unpack_array_len[tag={tag_:#x},len={n_}]", CP, "PackedCircuitReader::unpack_array_len", [("self", mk_reader(tag_, n_))],
+             c_unpack_array_len(tag_, n_), lambda res, args, ctx: {"result": res, "exits": list(ctx.exits)})
+    u.extra_contracts = UAL
+    UNITS.append(u)
